@@ -60,13 +60,16 @@ theorem addMd_spec (t : Table α) (m : List (Id × Md)) (ax : Axis) (hwf : addWF
   | none =>
     simp only [Option.bind_none]
     unfold castMd
-    by_cases hall : ((t.ids ax).map (fun id => dget m id)).all (·.isNone) = true
+    by_cases hall : ((t.ids ax).map (fun id => dget m id)).all (fun x => (x.getD []).isEmpty) = true
     · simp only [hall, if_true, Option.bind_none]
       simp only [List.all_map, List.all_eq_true, Function.comp_apply] at hall
       have := hall id hid
       cases hd : dget m id with
       | none => rfl
-      | some e => simp [hd] at this
+      | some e =>
+        simp only [hd, Option.getD_some, List.isEmpty_iff] at this
+        subst this
+        rfl
     · simp only [hall, Bool.false_eq_true, if_false, Option.bind_some]
       rw [List.map_map, lookupBy_map_self _ _ _ hid]
       simp only [Function.comp_apply, Option.bind_some]
@@ -75,16 +78,7 @@ theorem addMd_spec (t : Table α) (m : List (Id × Md)) (ax : Axis) (hwf : addWF
       | some e => simp only [Option.getD_some]; cases dget e k <;> rfl
   | some mds =>
     simp only [mdShape, hmd, beq_iff_eq] at hshape
-    rw [castMd_map_some]
-    have hlook : ((if (m.foldl (updStep (t.ids ax)) mds).isEmpty = true then none
-                  else some (m.foldl (updStep (t.ids ax)) mds)).bind
-                    (fun md => lookupBy (t.ids ax) md id)) =
-                 lookupBy (t.ids ax) (m.foldl (updStep (t.ids ax)) mds) id := by
-      by_cases he : (m.foldl (updStep (t.ids ax)) mds).isEmpty = true
-      · simp only [he, if_true, Option.bind_none]
-        rw [List.isEmpty_iff.mp he, lookupBy_nil_right]
-      · simp [he]
-    rw [hlook, lookupBy_fold_updStep _ _ _ _ hm]
+    rw [castMd_map_some, lookup_collapsed, lookupBy_fold_updStep _ _ _ _ hm]
     obtain ⟨old, hold⟩ := lookupBy_some_of_mem (t.ids ax) mds id hshape hid
     simp only [hold, Option.map_some, Option.bind_some]
     cases hd : dget m id with
@@ -95,18 +89,15 @@ theorem addMd_spec (t : Table α) (m : List (Id × Md)) (ax : Axis) (hwf : addWF
       simp only [dget_dictUpdate_nodup old e k hke]
       cases dget e k <;> rfl
 
-
-/-- `_cast_metadata` leaves the other axis as it is (a real table never holds an empty tuple there) -/
-theorem addMd_other_axis (t : Table α) (m : List (Id × Md)) (ax : Axis) (h : t.md ax.other ≠ some []) :
+/-- `_cast_metadata` leaves the other axis as it is (a real table never holds a tuple of empty entries there) -/
+theorem addMd_other_axis (t : Table α) (m : List (Id × Md)) (ax : Axis) (h : mdInformative (t.md ax.other) = true) :
     (addMetadata t m ax).md ax.other = t.md ax.other := by
   rw [md_addMetadata_other]
   cases hmd : t.md ax.other with
   | none => rfl
   | some mds =>
-    simp only [Option.map_some, castMd_map_some]
-    cases mds with
-    | nil => exact absurd hmd h
-    | cons x xs => simp
+    simp only [hmd, mdInformative, Bool.not_eq_true'] at h
+    simp only [Option.map_some, castMd_map_some, h, Bool.false_eq_true, if_false]
 
 theorem mdShape_addMetadata (t : Table α) (m : List (Id × Md)) (ax : Axis) (h : mdShape t ax = true) :
     mdShape (addMetadata t m ax) ax = true := by
@@ -116,13 +107,13 @@ theorem mdShape_addMetadata (t : Table α) (m : List (Id × Md)) (ax : Axis) (h 
   cases hmd : t.md ax with
   | none =>
     simp only [castMd]
-    by_cases hc : ((t.ids ax).map (fun id => dget m id)).all (·.isNone) = true
+    by_cases hc : ((t.ids ax).map (fun id => dget m id)).all (fun x => (x.getD []).isEmpty) = true
     · simp [hc]
     · simp [hc]
   | some mds =>
     simp only [mdShape, hmd, beq_iff_eq] at h
     simp only [castMd_map_some]
-    by_cases hc : (m.foldl (updStep (t.ids ax)) mds).isEmpty = true
+    by_cases hc : (m.foldl (updStep (t.ids ax)) mds).all (·.isEmpty) = true
     · simp [hc]
     · simp [hc, fold_updStep_length, h]
 
@@ -136,7 +127,7 @@ theorem addMd_unknown_ignored (t : Table α) (m : List (Id × Md)) (ax : Axis) (
   | some mds => simp [lookupBy_none_of_not_mem _ mds id hid]
 
 theorem addMd_holds (t : Table α) [DecidableEq α] (m : List (Id × Md)) (ax : Axis) (hwf : addWF t m ax = true)
-    (ho : t.md ax.other ≠ some []) : addHolds t m ax (addMetadata t m ax) = true := by
+    (ho : mdInformative (t.md ax.other) = true) : addHolds t m ax (addMetadata t m ax) = true := by
   have hf := frame_addMetadata t m ax
   have hshape : mdShape t ax = true := by
     simp only [addWF, Bool.and_eq_true] at hwf; exact hwf.1.1
@@ -593,7 +584,7 @@ theorem fromFile_lookup {β : Type} (o : Opts) (hdr0 : List Str) (conv : Str →
 
 /-- explicit, decidable hypotheses of `model_holds` -/
 def inputWF : Input α → Bool
-  | .add t m ax => addWF t m ax && decide (t.md ax.other ≠ some [])
+  | .add t m ax => addWF t m ax && mdInformative (t.md ax.other)
   | .del t _ _ => mdShape t .obs && mdShape t .samp
   | .parse o hdr0 _ f => fileOkWide o hdr0 f
 
@@ -602,7 +593,7 @@ def inputWF : Input α → Bool
 theorem model_holds [DecidableEq α] (i : Input α) (h : inputWF i = true) : holds i (model i) = true := by
   cases i with
   | add t m ax =>
-    simp only [inputWF, Bool.and_eq_true, decide_eq_true_eq] at h
+    simp only [inputWF, Bool.and_eq_true] at h
     exact addMd_holds t m ax h.1 h.2
   | del t keys arg =>
     simp only [inputWF] at h
